@@ -258,7 +258,10 @@ Fixpoint tscan (t : tstate) (acc : list chr) (s : bytes) : option (list chr * by
 Definition take_text (s : bytes) : option (list chr * bytes) := tscan T0 [] s.
 
 (* ---------- the tokenizer ---------- *)
-Definition next_command (s : bytes) : option (command * bytes) :=
+(* [fails a1 a2 t] says whether vc_motion('c') finds its motion failing (then vi_change is not reached and
+   no text is read).  The syntactic tokenizer takes every `c` as complete; the interpreter below asks
+   the editor state. *)
+Definition complete (fails : Z -> Z -> tgt -> bool) (s : bytes) : option (command * bytes) :=
   match scan P0 s with
   | None => None
   | Some (h, rest) =>
@@ -266,7 +269,8 @@ Definition next_command (s : bytes) : option (command * bytes) :=
       | HCmd c chg => Some (KCmd c chg, rest)
       | HIns k => match take_text rest with Some (t, rest') => Some (KCmd (CIns k t) true, rest') | None => None end
       | HChange y a1 a2 t =>
-          match take_text rest with Some (tx, rest') => Some (KCmd (COp y a1 Oc a2 t tx) true, rest') | None => None end
+          if fails a1 a2 t then Some (KCmd (COp y a1 Oc a2 t []) true, rest)        (* the text stays in the queue *)
+          else match take_text rest with Some (tx, rest') => Some (KCmd (COp y a1 Oc a2 t tx) true, rest') | None => None end
       | HNop chg => Some (KNop chg, rest)
       | HSkip => Some (KSkip, rest)
       | HDot n => Some (KDot n, rest)
@@ -274,6 +278,7 @@ Definition next_command (s : bytes) : option (command * bytes) :=
       | HOut => Some (KOut, rest)
       end
   end.
+Definition next_command (s : bytes) : option (command * bytes) := complete (fun _ _ _ => false) s.
 
 (* the whole program; None = it does not end at a command boundary or leaves the modelled set *)
 Fixpoint tokens (fuel : nat) (s : bytes) : option (list command) :=
@@ -305,43 +310,34 @@ Definition target_fails (rows : Z) (e : est) (a1 a2 : Z) (t : tgt) : bool :=
 Definition act_of (chg : bool) : act N := if chg then AChange else ANone.
 Definition cnt_of (n : Z) : nat := Z.to_nat n.
 
+(* what one command does to the editor state, and what it asks of the input side *)
+Definition apply_cmd (rows : Z) (v : vis) (e : est) (c : command) : vis * act N :=
+  match c with
+  | KCmd c chg => (mk_vis (exec1 rows c e) (vi_lastreg v), act_of chg)
+  | KNop chg => (mk_vis (Some (nop rows e)) (vi_lastreg v), act_of chg)
+  | KSkip => (v, ANone)
+  | KDot n => (mk_vis (Some (nop rows e)) (vi_lastreg v), ADot (cnt_of n))
+  | KExec n r =>
+      match (if r =? 64 then vi_lastreg v else Some r) with
+      | None => (mk_vis (Some (nop rows e)) None, ANone)                  (* reg = -1 *)
+      | Some x =>
+          match reg_get (s_regs e) x with
+          | Some (txt, _) => (mk_vis (Some (nop rows e)) (Some x), APush txt (cnt_of n))
+          | None => (mk_vis (Some (nop rows e)) (Some x), ANone)
+          end
+      end
+  | KOut => (vis_out v, ANone)
+  end.
+(* the command at the head of the pending input as the editor in state e reads it *)
+Definition parse (rows : Z) (e : est) (s : bytes) : option (command * bytes) := complete (target_fails rows e) s.
+
 Definition vi_exec (rows : Z) (v : vis) (s : bytes) : vis * nat * act N :=
   match vi_est v with
-  | None => (v, length s, ANone)
+  | None => (v, length s, ANone)                       (* outside the model: the rest of the input is dropped *)
   | Some e =>
-      match scan P0 s with
+      match parse rows e s with
       | None => (vis_out v, length s, ANone)
-      | Some (h, rest) =>
-          let k := (length s - length rest)%nat in
-          match h with
-          | HCmd c chg => (mk_vis (exec1 rows c e) (vi_lastreg v), k, act_of chg)
-          | HIns key =>
-              match take_text rest with
-              | Some (t, rest') => (mk_vis (exec1 rows (CIns key t) e) (vi_lastreg v), (length s - length rest')%nat, AChange)
-              | None => (vis_out v, length s, ANone)
-              end
-          | HChange y a1 a2 t =>
-              if target_fails rows e a1 a2 t
-              then (mk_vis (exec1 rows (COp y a1 Oc a2 t []) e) (vi_lastreg v), k, AChange)   (* the text stays in the queue *)
-              else match take_text rest with
-                   | Some (tx, rest') =>
-                       (mk_vis (exec1 rows (COp y a1 Oc a2 t tx) e) (vi_lastreg v), (length s - length rest')%nat, AChange)
-                   | None => (vis_out v, length s, ANone)
-                   end
-          | HNop chg => (mk_vis (Some (nop rows e)) (vi_lastreg v), k, act_of chg)
-          | HSkip => (v, k, ANone)
-          | HDot n => (mk_vis (Some (nop rows e)) (vi_lastreg v), k, ADot (cnt_of n))
-          | HExec n r =>
-              match (if r =? 64 then vi_lastreg v else Some r) with
-              | None => (mk_vis (Some (nop rows e)) None, k, ANone)                  (* reg = -1 *)
-              | Some x =>
-                  match reg_get (s_regs e) x with
-                  | Some (txt, _) => (mk_vis (Some (nop rows e)) (Some x), k, APush txt (cnt_of n))
-                  | None => (mk_vis (Some (nop rows e)) (Some x), k, ANone)
-                  end
-              end
-          | HOut => (vis_out v, length s, ANone)
-          end
+      | Some (c, rest) => let (v', a) := apply_cmd rows v e c in (v', (length s - length rest)%nat, a)
       end
   end.
 
